@@ -64,7 +64,7 @@ func (a Int8) ConvertConstScalar(t ScalarType) ConstScalar {
   case Int8Type:
     return a
   default:
-    return NewConstScalar(t, a.GetFloat64())
+    return convertConstScalar(a, t)
   }
 }
 func (a Int8) ConvertScalar(t ScalarType) Scalar {
